@@ -51,13 +51,20 @@ impl<'a> StepHook for Robust<'a> {
 }
 
 /// Observe one transaction under single-stepping with optional storage fault.
-pub fn check_tx(world: &World, sc: &Scenario, i: usize, spec: &ScriptSpec, storage: super::storage::SimStorage, ctx: &mut RunCtx) -> (bool, super::storage::SimStorage) {
+pub fn check_tx(world: &World, sc: &Scenario, i: usize, spec: &ScriptSpec, storage: super::storage::SimStorage, held: &mut Option<Vm>, ctx: &mut RunCtx) -> (bool, super::storage::SimStorage) {
     let ready = match prepare(world, sc.height, sc.gas_price, i, spec) {
         Ok(r) => r,
         Err(_) => return (false, storage),
     };
     let snapshot = storage.clone();
-    let mut vm = new_vm(world, sc.gas_price, storage, Default::default());
+    let mut vm = match held.take() {
+        Some(mut v) => {
+            *v.as_mut() = storage;
+            ctx.stats.inc("probe.tx_on_reused_interpreter");
+            v
+        }
+        None => new_vm(world, sc.gas_price, storage, Default::default()),
+    };
     let mut fault_armed = false;
     for (t, at) in &sc.plan.observer_faults {
         if *t as usize == i {
@@ -74,7 +81,13 @@ pub fn check_tx(world: &World, sc: &Scenario, i: usize, spec: &ScriptSpec, stora
         opcodes_seen: Default::default(),
         executed: 0,
     };
-    let o = run_stepped(&mut vm, ready, &mut hook, sc.plan.step_cap as u64);
+    let plain = sc.plan.plain.contains(&(i as u8));
+    let o = if plain {
+        ctx.stats.inc("probe.tx_uninterrupted");
+        run_plain(&mut vm, ready)
+    } else {
+        run_stepped(&mut vm, ready, &mut hook, sc.plan.step_cap as u64)
+    };
     let fired = vm.as_ref().errors_fired() > before;
     // the simulated disk's own refusal of an oversized slot range is an injected I/O error too
     let refused = vm.as_ref().rec.borrow().range_refused > refused_before;
@@ -128,5 +141,9 @@ pub fn check_tx(world: &World, sc: &Scenario, i: usize, spec: &ScriptSpec, stora
         return (false, take_storage(&mut vm2));
     }
     settle(&mut vm, &snapshot, &o);
-    (false, take_storage(&mut vm))
+    let st = take_storage(&mut vm);
+    if sc.plan.reuse_vm {
+        *held = Some(vm);
+    }
+    (false, st)
 }
